@@ -33,6 +33,7 @@ func pinned(r *core.Run) {
 		"RENAME TABLE old_name TO new_name",
 		"CREATE DATABASE d2",
 		"CREATE TRIGGER trg BEFORE INSERT ON t FOR EACH ROW SET @x = 1",
+		"CREATE TRIGGER trg_other BEFORE INSERT ON new_name FOR EACH ROW SET @x = 2",
 	}
 	cases := []pinnedCase{
 		{[]string{"COLUMNS:wrong-value:COLUMN_DEFAULT:date-literal-printed-with-time"}, "COLUMN_DEFAULT of a DATE column shows a time part", nil,
@@ -55,6 +56,8 @@ func pinned(r *core.Run) {
 			"SELECT * FROM information_schema.STATISTICS WHERE TABLE_SCHEMA = 'd'", map[string]string{"TABLE_NAME": "t", "INDEX_NAME": "ix", "SEQ_IN_INDEX": "1"}, "SUB_PART", nil, -1},
 		{[]string{"SHOW-INDEXES:wrong-value:Table:old-name-after-rename-table"}, "SHOW INDEXES keeps the old table name after RENAME TABLE", nil,
 			"SHOW INDEXES FROM new_name", map[string]string{"Key_name": "ib"}, "Table", str("new_name"), -1},
+		{[]string{"TRIGGERS:wrong-value:ACTION_ORDER:counts-triggers-of-other-tables"}, "TRIGGERS.ACTION_ORDER counts triggers with the same timing and event on other tables", nil,
+			"SELECT * FROM information_schema.TRIGGERS WHERE TRIGGER_SCHEMA = 'd'", map[string]string{"TRIGGER_NAME": "trg_other"}, "ACTION_ORDER", str("1"), -1},
 		{[]string{"SHOW-TRIGGERS:extra-row:from-clause-ignored", "SHOW-TRIGGERS:missing-row:from-clause-ignored"}, "SHOW TRIGGERS FROM <db> ignores the FROM clause and lists the current database's triggers", nil,
 			"SHOW TRIGGERS FROM d2", map[string]string{"Trigger": "trg"}, "", nil, 0},
 	}
